@@ -73,7 +73,7 @@ impl Profile for Remotes {
                 ops.pop();
             }
         }
-        let mut tg = TrafficGen { sg, codes: &wp.codes };
+        let mut tg = TrafficGen { sg, codes: &wp.codes, cross_migrate: false, model: vec![] };
         let n = rng.range(3, 10);
         for _ in 0..n {
             // mostly `go` with a script full of helper uses
@@ -87,7 +87,7 @@ impl Profile for Remotes {
                         sender: rng.pick(accounts).clone(),
                         msg: Doc::json(&doc_for(h, &args)),
                         funds: vec![],
-                        intent: Some(Intent { hid: h.id(), args: Value::Object(args) }),
+                        intent: Some(Intent { hid: h.id(), args: Value::Object(args), cid: String::new() }),
                     });
                     continue;
                 }
@@ -155,7 +155,7 @@ impl Profile for StoredHandles {
                     }
                     nonce = sg.nonce;
                     let args = json!({"script": serde_json::to_value(Script(steps)).unwrap()});
-                    ops.push(Op::Exec { target: c.addr.clone(), sender: rng.pick(accounts).clone(), msg: Doc::json(&json!({"go": args})), funds: vec![], intent: Some(Intent { hid: h.id(), args }) });
+                    ops.push(Op::Exec { target: c.addr.clone(), sender: rng.pick(accounts).clone(), msg: Doc::json(&json!({"go": args})), funds: vec![], intent: Some(Intent { hid: h.id(), args, cid: String::new() }) });
                 }
                 6 | 7 => {
                     // code replacement: only storage survives
@@ -170,7 +170,7 @@ impl Profile for StoredHandles {
                     sg.queries = false;
                     let args = sg.args_for(rng, ne.spec.cid, h, 5);
                     nonce = sg.nonce;
-                    ops.push(Op::Migrate { target: c.addr.clone(), sender: accounts[3].clone(), code, msg: Doc::json(&doc_for(h, &args)), intent: Some(Intent { hid: h.id(), args: Value::Object(args) }) });
+                    ops.push(Op::Migrate { target: c.addr.clone(), sender: accounts[3].clone(), code, msg: Doc::json(&doc_for(h, &args)), intent: Some(Intent { hid: h.id(), args: Value::Object(args), cid: String::new() }) });
                     contracts[ci].cid = ne.spec.cid.to_string();
                     contracts[ci].code = code;
                 }
